@@ -27,6 +27,8 @@ def atom_strategy(allow_special):
         "occ": st.one_of(S.fl(0.01, 1.0), st.just(1.0)),
         "adp": st.sampled_from(["Uiso", "Uani", "none"]), "uiso": S.fl(0.002, 0.1),
         "M": st.lists(S.fl(-0.03, 0.03), min_size=9, max_size=9), "eps": S.logfl(1e-5, 1e-3),
+        "uform": st.sampled_from(["full", "full", "full", "diagonal", "equal-diagonal"]), "umag": st.sampled_from([1.0, 1.0, 1.0, 3.0, 10.0, 25.0]),
+        "udiag": st.tuples(S.fl(0.003, 0.3), S.fl(0.003, 0.3), S.fl(0.003, 0.3)).map(list),
         "shift": st.tuples(st.integers(-2, 2), st.integers(-2, 2), st.integers(-2, 2)).map(list),
         "fp": S.fl(-2, 2), "fpp": S.fl(0, 3), "disp": st.sampled_from(["pair", "pair", "none"])})
 
@@ -64,7 +66,8 @@ def build(case):
     astar = np.sqrt(np.diag(Gs))
     M = Model()
     M.g, M.cell, M.G, M.Gs = g, cell, G, Gs
-    name = g.name
+    al = GR.aliases(no, ch)
+    name = al[case["op"] % len(al)] if case["op"] % 3 == 0 else g.name
     if case["upper"]:
         name = name.upper()
     if case["blank"]:
@@ -101,8 +104,13 @@ def build(case):
         if kind == "Uiso":
             adp = a_["uiso"]
         elif kind == "Uani":
-            Mm = np.array(a_["M"], float).reshape(3, 3)
+            Mm = np.array(a_["M"], float).reshape(3, 3) * a_.get("umag", 1.0)     # from gentle to strongly anisotropic motion
             beta = Mm @ Mm.T + a_["eps"] * np.eye(3)
+            uform = a_.get("uform", "full")
+            if uform != "full" and len(stab) == 1:
+                # tensors with exactly zero cross terms (as refined for many real structures), optionally U11 = U22 = U33
+                ud = a_["udiag"] if uform == "diagonal" else [a_["udiag"][0]] * 3
+                beta = 2 * math.pi ** 2 * np.outer(astar, astar) * np.diag(ud)
             # average over the exact stabiliser so that the tensor is site-symmetric
             beta = sum(g.R[k].astype(float) @ beta @ g.R[k].astype(float).T for k in stab) / len(stab)
             Um = beta / (2 * math.pi ** 2 * np.outer(astar, astar))
